@@ -1293,6 +1293,15 @@ func (env *specEnv) applyGoFunc(fn *ssa.Function, args []Val) (Val, error) {
 			return v, nil
 		}
 	}
+	if xs := e.externs[name]; xs != nil && xs.Pure && a != nil && len(xs.Ensures) == 0 && len(xs.Requires) == 0 {
+		// a function with a plain `extern ... pure` declaration: the same uninterpreted application the code gets
+		e.cur.externsUsed[xs.Name] = true
+		uargs := args
+		if xs.Heap {
+			uargs = append(append([]Val{}, args...), Val{Typ: types.Typ[types.Int], T: []Term{e.heapVersion(env.st)}})
+		}
+		return a.pureUF(xs.Name, uargs, rtyp, env.st), nil
+	}
 	if fs := e.specOf(fn); fs != nil && fs.Pure {
 		res := a.pureSpecUF(fs, name, args, rtyp, env.st)
 		// instantiate the contract for this application: requires ==> ensures
